@@ -37,6 +37,74 @@ type c10Op struct {
 	Route  string   `json:"route,omitempty"`
 	Target int      `json:"registration_index,omitempty"`
 	Pairs  []string `json:"header_pairs,omitempty"`
+	// Refused: a registration that is expected to be refused (by the router and by the plain tree alike): the
+	// history goes on with everything as it was
+	Refused bool `json:"refused_attempt,omitempty"`
+}
+
+// c10RefusedHistories: static routes of two to four segments (and an optional and a dynamic neighbour), then an
+// attempt that is refused somewhere below the first segment, optionally Headers() on the first route, then the
+// probe set (the route itself, spelled plainly and with doubled slashes).
+func c10RefusedHistories(r *core.Run) {
+	firsts := []string{"/s/t/u", "/s/t", "/s/t/u/w", "/s/t/?u", "/s/{p}/u"}
+	attempts := []string{"/s/t/u", "/s/{x}/{x}", "/s/t/{x}/{x}", "/s/{m: **}/{n: **}/z", "/s/t/u/{y}/{y}", "/s/?t/u", "/s/t"}
+	paths := []string{"/s/t/u", "//s/t/u", "/s/t", "/s//t", "/s/t/u/w", "/s/t/u//w", "/s/t/", "/s/x/u", "/s", "/s/t/u/"}
+	type job struct{ ops []c10Op }
+	var jobs [][]c10Op
+	for _, f1 := range firsts {
+		for _, m := range []string{"GET", "*"} {
+			for _, a := range attempts {
+				for _, second := range []string{"", "/q/?r", "/{p}"} {
+					for _, hdr := range []bool{false, true} {
+						ops := []c10Op{{Kind: "reg", Method: m, Route: f1}}
+						if second != "" {
+							ops = append(ops, c10Op{Kind: "reg", Method: "GET", Route: second})
+						}
+						ops = append(ops, c10Op{Kind: "reg", Method: "GET", Route: a, Refused: true})
+						if hdr {
+							ops = append(ops, c10Op{Kind: "headers", Target: 0, Pairs: []string{"X-K", "v"}})
+						}
+						jobs = append(jobs, ops)
+					}
+				}
+			}
+		}
+	}
+	r.Bounds["histories_with_a_refused_attempt"] = fmt.Sprintf("%d histories: %d first routes x {GET, all methods} x %d attempts refused below the first segment x {no, optional, dynamic} second route x Headers() afterwards or not; %d probe paths", len(jobs), len(firsts), len(attempts), len(paths))
+	r.Parallel(func(wk, nw int, l *core.Local) {
+		p, _ := route.NewParser()
+		for ji := wk; ji < len(jobs); ji += nw {
+			if r.Expired() {
+				return
+			}
+			w, ok, bad := c10Apply(p, jobs[ji])
+			if bad != "" {
+				l.Violate("registration-verdict", bad, c10Case{Ops: jobs[ji]})
+				continue
+			}
+			if !ok {
+				l.Extra["refused_attempt_histories_not_applicable(the attempt is accepted)"]++
+				continue
+			}
+			l.States++
+			l.Transitions += int64(len(jobs[ji]))
+			l.Traces++
+			for _, method := range []string{"GET", "POST"} {
+				for _, path := range paths {
+					for _, hdr := range c10ReqHdrs {
+						l.Evals++
+						l.NonTrivial++
+						if bad, outcome := c10One(w, method, path, hdr); bad != "" {
+							l.Class("mismatch")
+							l.Violate("shortcut-vs-tree/"+outcome+"/after-a-refused-attempt", bad+fmt.Sprintf(" [history %v, refused attempts %v, request %s %q %v]", w.desc, w.refused, method, path, hdr), c10Case{Ops: jobs[ji], Method: method, Path: path, Headers: hdr})
+						} else {
+							l.Class("after-a-refused-attempt")
+						}
+					}
+				}
+			}
+		}
+	})
 }
 
 func c10Ops() []c10Op {
@@ -60,6 +128,7 @@ type c10World struct {
 	trees   map[string]route.Tree // the same history through the plain tree API, no shortcut
 	leaves  [][]route.Leaf        // per registration: the leaf of every method it covers
 	desc    []string
+	refused []string // attempts that were refused along the way
 	hitText string
 	hitPar  map[string]string
 	ran     int
@@ -134,7 +203,12 @@ func c10ApplyI(p *route.Parser, ops []c10Op, interleave bool) (w *c10World, ok b
 			if (pan != nil) != (terr != nil || tpan != nil) {
 				return w, false, fmt.Sprintf("registration verdict differs between Flame (%v) and the plain tree (%v %v)", pan, terr, tpan)
 			}
-			if pan != nil {
+			if pan != nil && op.Refused {
+				// an attempt both sides refuse: the application recovers and goes on; nothing has changed
+				w.refused = append(w.refused, op.Method+" "+text)
+				continue
+			}
+			if pan != nil || op.Refused {
 				return w, false, ""
 			}
 			w.handles = append(w.handles, handle)
@@ -240,7 +314,7 @@ func c10Run(r *core.Run) {
 	if r.Thorough() {
 		r.SetBudget(14 * time.Minute)
 	}
-	r.Rule = fmt.Sprintf("engine B: BFS (depth 3; thorough: every history with the probe set also served between the operations, plus depth 4 over a reduced alphabet of 8 routes x {GET, POST, all methods}) over histories of Reg(method list,route) and Headers(i,set) applied to a fresh Flame AND, operation by operation, to plain route trees (route.AddRoute / SetHeaderMatcher, no shortcut); after every transition (and, in a second world, between the operations) every probe (2 methods+1 unknown x %d paths x %d header sets, each served twice)", len(c10Paths), len(c10ReqHdrs)) + " must give the same chosen route, parameters or not-found on both; non-trivial = probe on a state that contains a fully static route (so the shortcut table is populated or was evicted)"
+	r.Rule = fmt.Sprintf("engine B: BFS (depth 3; thorough: every history with the probe set also served between the operations, plus depth 4 over a reduced alphabet of 8 routes x {GET, POST, all methods}) over histories of Reg(method list,route) and Headers(i,set) applied to a fresh Flame AND, operation by operation, to plain route trees (route.AddRoute / SetHeaderMatcher, no shortcut); after every transition (and, in a second world, between the operations) every probe (2 methods+1 unknown x %d paths x %d header sets, each served twice)", len(c10Paths), len(c10ReqHdrs)) + " must give the same chosen route, parameters or not-found on both; plus histories with an attempt that both sides refuse below the first segment of a registered static route; non-trivial = probe on a state that contains a fully static route (so the shortcut table is populated or was evicted)"
 	r.Bounds["depth"] = depth
 	r.Bounds["ops"] = len(ops)
 	r.Bounds["max_registrations"] = c10MaxRegs
@@ -326,6 +400,7 @@ func c10Run(r *core.Run) {
 	if d < depth {
 		r.NotExhaustive("internal deadline")
 	}
+	c10RefusedHistories(r)
 	if r.Thorough() {
 		// one level deeper over a reduced alphabet (the shapes the shortcut logic distinguishes: static,
 		// optional-static, shadowing placeholder and match-all, static below a static, root; one or all methods)
